@@ -399,6 +399,45 @@ pub fn run(ctx: &Ctx) -> PropResult {
             rec.sample(|| json!({"type": kind_name(kind), "input": input, "pattern": pattern}));
         }
     }));
+    // (3b) the same text APIs under a hostile ambient state: the clock pinned at the ends of the range, the era boundary,
+    // 2^k units from the epochs … and the system zone redirected to fixed offsets up to ±23:59:59 or a real zone.  A text
+    // API that consults the clock (two-digit years) or the zone must still return Ok/Err — the answer may depend on the
+    // clock, a panic may not.
+    wls.push(Workload::cases("text_apis_under_a_hostile_clock_and_zone", ctx.count(60_000, 1_500_000), move |rec, idx, rng| {
+        let z = super::localzone::gen_zone(rng);
+        let (now, ctag) = super::localzone::gen_clock(rng);
+        rec.bin(ctag);
+        let kind = [Kind::DateTime, Kind::Date, Kind::Time][(idx % 3) as usize];
+        let (i, off) = gen_fmt_value(rng);
+        let off = if kind == Kind::Date { 0 } else { off };
+        let v = super::c11::val_of(kind, i, off);
+        // clock-dependent fields first: two-digit years in several companies; then the generator's patterns
+        let pattern: String = if kind != Kind::Time && rng.chance(1, 2) {
+            rng.pick(&["yy", "yy-MM-dd", "dd.MM.yy", "yyMMdd", "yy DDD", "M/d/yy", "yy-MM-dd HH:mm:ss", "dd.MM.yy HH:mm xxx", "yy G", "'yy' yy"]).to_string()
+        } else {
+            pattern_gen::gen(rng, kind, &ValueFacts { year: cal::ymd(v.day).0, offset: off }).pattern
+        };
+        let pattern = if kind == Kind::Date { pattern.replace(" HH:mm:ss", "").replace(" HH:mm xxx", "") } else { pattern };
+        let Ok(text) = trap(|| super::c11::lib_format(kind, i, off, &pattern)) else { return };
+        let input = match rng.below(3) { 0 => text.clone(), 1 => mutate(rng, &text, 2), _ => text.chars().take(rng.below(text.chars().count() as u64 + 1) as usize).collect() };
+        rec.nontrivial(hash_str(&input) ^ hash_str(&pattern).rotate_left(17) ^ hash_i128s(&[now, 0x14A]));
+        let rfc = if rng.chance(1, 2) { crate::model::rfc3339::gen_valid(rng).text() } else { let t = crate::model::rfc3339::gen_valid(rng).text(); mutate(rng, &t, 2) };
+        let cron = { let b = *rng.pick(&CRON_BASE); mutate(rng, b, 2) };
+        let ran = super::localzone::in_ambient(&z, now, || {
+            judge_parse(rec, kind, &input, &pattern, "hostile-clock-and-zone");
+            match idx % 4 {
+                0 => judge_rfc(rec, &rfc),
+                1 => judge_from_str(rec, &input),
+                2 => judge_cron(rec, &cron),
+                _ => {}
+            }
+        });
+        if ran.is_none() {
+            rec.bin(super::diff::SKIP_START);
+        } else {
+            rec.bin("ambient/judged");
+        }
+    }));
     // (4) RFC 3339, FromStr and cron strings under the same mutations; range-end values with offsets
     wls.push(Workload::cases("mutated_rfc3339_fromstr_cron", ctx.count(300_000, 10_000_000), |rec, idx, rng| match idx % 4 {
         0 | 1 => {
@@ -517,7 +556,8 @@ pub fn run(ctx: &Ctx) -> PropResult {
         "(1) EXHAUSTIVE: {} (symbol, width) runs x every input string of length ≤ {} over the alphabet {{0 1 9 - + a Z : é ' space .}} x 3 parse functions; (2) EXHAUSTIVE: every pattern of length ≤ 5 over {{' y T é space}} x every input of length ≤ {} over {{2 - T é ' space}} for parse (3 types) and the patterns for format on 7 values (BC, leap day, both range ends with offsets); (3) C12 round-trip material with delete/insert/replace/truncate mutations (multi-byte, NUL, quotes, signs, digits) of the input, the pattern, or both; (4) RFC 3339 / FromStr / cron strings under the same mutations, and range-end local times with offsets that push the UTC instant out of range; (4b) EXHAUSTIVE: a valid RFC 3339 date-time prefix followed by every string of length ≤ 5 (thorough 6) over {{+ - 0 5 : Z é 日 .}} as fraction/offset part; (4c) cron fields holding tokens of up to 48 characters of mixed byte widths; (5) 10 000-character inputs and patterns, and runs of 255 … 300 000 repetitions of each single symbol (the run length is used as a padding width). Oracle: outcome class — Ok (then every getter/format of the value must also return and the value be in range), Err, or panic; only a panic (any class, both builds) or an invalid Ok value is a violation. Non-trivial = every mutated/enumerated case; exhaustive cases distinct by construction (counted), others by hash. Pile-ups: several fields for the same component in one pattern (every width of n; several hour, year, day, minute/second, zone, period symbols) with every digit at its maximum, for parse on all three types and for format. EVERY deletion of 1..=7 and duplication of 1..=3 consecutive characters of 14 default-form texts (RFC 3339 with and without fraction/offset, yyyy-MM-dd incl. negative and 5-digit years, HH:mm:ss) through parse_rfc3339 and the three FromStr impls.",
         combos.len(), max_len, in_len
     );
-    meta.required_bins = vec!["range-end-with-offset", "long-input", "very-long-symbol-run", "cron-long-token"];
+    meta.rule.push_str(" (3b) the text APIs under a hostile ambient state: the clock pinned (hook) at the ends of the range, the era boundary, year 10000, 2^k units from the epochs, today, anywhere, and the system zone redirected (hook) to fixed offsets up to ±23:59:59 or real zones; patterns with two-digit years (clock dependent) in several companies and generated patterns; inputs exact, mutated, truncated; also parse_rfc3339, from_str and CronSchedule::parse there.");
+    meta.required_bins = vec!["ambient/judged", "clock/upper-range-end", "clock/lower-range-end", "clock/around-0001-01-01", "clock/2^k-units-from-an-epoch", "range-end-with-offset", "long-input", "very-long-symbol-run", "cron-long-token"];
     meta.assumptions = vec!["panics are observed through catch_unwind with a process-wide hook; a hang is caught by the per-case watchdog of the worker pool".into()];
     let _ = (Offset::Fixed(0), TimeUtilities::hour(&Time::default()), OffsetUtilities::get_offset(&Time::default()));
     Ok((meta, out))
